@@ -352,6 +352,14 @@ def long_frame_case(draw):
         vals = sorted(draw(st.lists(st.sampled_from(['1', '3', '40', '500', '2000', '123456.5', '0.5']), min_size=k, max_size=k, unique=True)),
                       key=float)
         col = {'name': draw(st.sampled_from(NAME_POOL)), 'vals': vals, 'counts': counts, 'seed': 0, 'keep_order': True}
+        if k >= 3 and draw(st.booleans()):
+            # a second numeric column with the same first and last cells but another body (same values, other run lengths)
+            c0b = draw(st.integers(32_768 + 1, (78 * n) // 100))
+            countsb = [c0b] + draw(_compose(n - c0b, k - 1))
+            if countsb != counts:
+                colb = {'name': draw(st.sampled_from([nm for nm in NAME_POOL if nm != col['name']])), 'vals': vals, 'counts': countsb, 'seed': 0,
+                        'keep_order': True}
+                return {'presets': [draw(st.sampled_from(['default', 'minimal']))], 'n': n, 'cols': [col, colb], 'label_first': draw(st.booleans())}
     else:
         # one cell holds a value far above the others: it sits in one row block only
         vals = [draw(_NUM) for _ in counts]
